@@ -48,14 +48,17 @@ static void do_sleep(const req_t* r) {
   } else fiber_sleep(r->a, r->b);
 }
 
+static int env_nalts_cfg, env_window;
 GHOST static uint64_t before_sleep(int id) {
   g_asleep++;
+  if (env_window) fmc_env_nalts = env_nalts_cfg;  // deviations only while somebody is in or near a sleep
   g_ticker_runs_at_sleep[id] = g_ticker_runs;
   return fmc_vticks();
 }
 GHOST static void after_sleep(int id, const req_t* r, uint64_t v0) {
   uint64_t v1 = fmc_vticks();
   g_asleep--;
+  if (env_window && !g_asleep) fmc_env_nalts = 0;
   g_woken++;
   double upper_us = (double)(v1 - v0 + 1) * 5000.0;
   if (upper_us <= req_us(r))
@@ -71,6 +74,7 @@ static volatile char scribble_sink;
 
 static void* sleeper(void* p) {
   int id = (int)(intptr_t)p;
+  fmc_env_observe();  // the virtual clock is read next
   uint64_t v0 = before_sleep(id);
   do_sleep(&chosen[id]);
   after_sleep(id, &chosen[id], v0);
@@ -90,9 +94,10 @@ static void* ticker(void* p) {
 
 // environment deviations at arbitrary scheduling points: inject 1, 2 or 8 ticks
 int fmc_env_nalts = 0;
+static int env_only;  // -Denvonly=k: the only deviation offered at scheduling points is a burst of k ticks
 void fmc_env_alt(int idx) {
-  static const int k[] = {1, 2, 8};
-  fmc_tick(k[idx]);
+  static const int k[] = {1, 2, 8, 32};
+  fmc_tick(env_only ? (uint64_t)env_only : (uint64_t)k[idx]);
 }
 
 static int at_quiescence(void) {
@@ -118,7 +123,11 @@ static int at_quiescence(void) {
 int harness_main(void) {
   sc = fmc_param("sc", 0);
   int big = fmc_param("big", 0);
-  fmc_env_nalts = fmc_param("envpoints", 0) ? 3 : 0;
+  env_only = fmc_param("envonly", 0);
+  fmc_env_nalts = env_only ? 1 : fmc_param("envpoints", 0);
+  env_nalts_cfg = fmc_env_nalts;
+  env_window = fmc_param("envwindow", 0);
+  if (env_window) fmc_env_nalts = 0;  // 0 none, 3: {1,2,8}, 4: {1,2,8,32} ticks at any scheduling point
   rt_start();
   rt_quiescent_hook = at_quiescence;
   fiber_t* f[5];
@@ -133,7 +142,8 @@ int harness_main(void) {
     nsleepers = fmc_param("sleepers", 2);
     int same = fmc_param("same", 1);
     for (int i = 0; i < nsleepers; i++) {
-      chosen[i] = (req_t){0, (uint32_t)(same ? 1000 : 1000 + 5000 * i), 0};
+      uint32_t base = (uint32_t)fmc_param("us", 1000);
+      chosen[i] = (req_t){0, (uint32_t)(same ? base : base + 5000 * i), 0};
       f[nf++] = fiber_create(STK, sleeper, (void*)(intptr_t)i);
     }
     if (fmc_param("ticker", 1)) f[nf++] = fiber_create(STK, ticker, 0);
@@ -143,6 +153,7 @@ int harness_main(void) {
     nsleepers = 1;
     chosen[0] = (req_t){0, (uint32_t)fmc_param("us", 20000), 0};
     fmc_tick(fmc_param("pile", 12));
+    fmc_env_observe();
     uint64_t v0 = before_sleep(0);
     do_sleep(&chosen[0]);
     after_sleep(0, &chosen[0], v0);
